@@ -269,8 +269,8 @@ def case_curve(rng):
     mode = rng.choice(['vac', 'temp', 'press'])
     tp = rng.uniform(150, T - 10) if mode == 'temp' else None
     pp = rng.uniform(0, 1.0) if mode == 'press' else None
-    basis = rng.choice(['weight', 'molar'])
-    comps = [pv.Composition(p=gens.interior(rng), type=basis) for _ in range(n)]
+    basis = rng.choice(['weight', 'molar', 'mixed'])       # mixed: every point carries its own basis
+    comps = [pv.Composition(p=gens.interior(rng), type=(basis if basis != 'mixed' else rng.choice(['weight', 'molar']))) for _ in range(n)]
     J = [(gens.loguniform(rng, 1e-2, 5), gens.loguniform(rng, 1e-5, 1)) for _ in range(n)]
     try:
         c = DiffusionCurve(mixture=m, membrane_name='o', feed_temperature=T, feed_compositions=comps, partial_fluxes=J,
@@ -287,12 +287,121 @@ def case_curve(rng):
     return 'curve:%s:%s' % (mode, basis), e, 'n=%d' % n
 
 
+def case_curve_metrics(rng):
+    """curve from permeances in kg / SI / GPU (fluxes computed, permeances re-exposed) and the four metrics"""
+    m = gens.any_mixture(rng)
+    n = rng.randint(1, 4)
+    T = rng.uniform(290, 370)
+    basis = rng.choice(['weight', 'molar', 'mixed'])
+    units = rng.choice(list(UNITS))
+    comps = [pv.Composition(p=gens.interior(rng), type=(basis if basis != 'mixed' else rng.choice(['weight', 'molar']))) for _ in range(n)]
+    P = [(pv.Permeance(gens.loguniform(rng, 1e-4, 1)).convert(units, m.first_component),
+          pv.Permeance(gens.loguniform(rng, 1e-6, 1e-1)).convert(units, m.second_component)) for _ in range(n)]
+    try:
+        c = DiffusionCurve(mixture=m, membrane_name='o', feed_temperature=T, feed_compositions=comps, permeances=P)
+        sf, psi, sel = c.get_separation_factor, c.get_psi, c.get_selectivity
+        ys = [y.p for y in c.permeate_composition]
+        vals = [v for j in c.partial_fluxes for v in j] + [q[i].value for q in c.permeances for i in (0, 1)] + list(sf) + list(psi) + list(sel) + ys
+        if not finite(vals):
+            return None
+        out = 'Returned ([%s], [%s], [%s], ([%s], [%s], [%s]))' % (
+            '; '.join(pair(j) for j in c.partial_fluxes), '; '.join('(%s, %s)' % (perm(q[0]), perm(q[1])) for q in c.permeances),
+            '; '.join(fl(y) for y in ys), '; '.join(fl(v) for v in sf), '; '.join(fl(v) for v in psi), '; '.join(fl(v) for v in sel))
+    except ACC:
+        out = 'Raised'
+    cin = '(Build_CurveIn FOps %s [%s] None None None (Some [%s]))' % (
+        fl(T), '; '.join(comp(x) for x in comps), '; '.join('(%s, %s)' % (perm(q[0]), perm(q[1])) for q in P))
+    mt = mixture(m)
+    e = ('agree metrics_near (cv <- mk_curve FOps (real_PP FOps %s) %s %s ;; ys <- curve_permeate_composition FOps cv ;; '
+         'sf <- curve_separation_factor FOps %s cv ;; ps <- curve_psi FOps %s cv ;; sl <- curve_selectivity FOps %s cv ;; '
+         'Ok (cv_J cv, cv_P cv, map (cp (N:=FOps)) ys, (sf, ps, sl))) (%s)') % (mt, mt, cin, mt, mt, mt, out)
+    return 'curvemetrics:%s:%s' % (units, basis), e, 'n=%d' % n
+
+
+def case_nicurve(rng):
+    """Pervaporation.non_ideal_diffusion_curve with the optimiser replaced on both sides by the same function"""
+    import random as _r
+    m = rng.choice(gens.builtin_mixtures())
+    ncurves = rng.choice([1, 3])
+    cbasis = rng.choice(['weight', 'molar', 'mixed'])
+    cs = po.curve_set(m, _r.Random(1), ncurves, cbasis)
+    mem = pvtools.simple_membrane(m, 0.05, 0.0005)
+    pvo = pvtools.Counting(mem, m)
+    T = rng.choice([cs.diffusion_curves[0].feed_temperature, rng.uniform(300, 360)])
+    x0 = pv.Composition(p=rng.uniform(0.05, 0.6), type=rng.choice(['weight', 'molar']))
+    n = rng.choice([1, 2, 3, 5, 8])
+    delta = rng.uniform(0.001, 0.3 / n) * rng.choice([1, 1, 1, 4])          # sometimes leaves [0,1]: rejected on both sides
+    mode = rng.choice(['vac', 'temp', 'press'])
+    tp = rng.uniform(150, 260) if mode == 'temp' else None
+    pp = rng.uniform(0, 0.3) if mode == 'press' else None
+    ct = rng.choice(['NRTL', 'UNIQUAC'])
+    ipu = rng.choice(list(UNITS))
+    ip = rng.choice([None, (pv.Permeance(gens.loguniform(rng, 1e-3, 0.1)).convert(ipu, m.first_component),
+                            pv.Permeance(gens.loguniform(rng, 1e-5, 1e-2)).convert(ipu, m.second_component))])
+    old = PVM.find_best_fit
+    PVM.find_best_fit = po.fake_find_best_fit
+    try:
+        c = pvo.non_ideal_diffusion_curve(cs, T, x0, delta, n, tp, pp, ip, 1e-11, ct)
+        vals = [v for j in c.partial_fluxes for v in j] + [q[i].value for q in c.permeances for i in (0, 1)] + [x.p for x in c.feed_compositions]
+        if not finite(vals):
+            return None
+        out = 'Returned ([%s], [%s], [%s])' % ('; '.join(comp(x) for x in c.feed_compositions), '; '.join(pair(j) for j in c.partial_fluxes),
+                                              '; '.join('(%s, %s)' % (perm(q[0]), perm(q[1])) for q in c.permeances))
+    except pvtools.EvalBudgetExceeded:
+        return None
+    except ACC:
+        out = 'Raised'
+    finally:
+        PVM.find_best_fit = old
+    if pvo.__dict__.get('n_evals', 0) > 3000:
+        return None
+    raw1 = po.fake_find_best_fit(Measurements.from_diffusion_curves_first(cs), component_index=0, m=(0 if ncurves == 1 else None))
+    raw2 = po.fake_find_best_fit(Measurements.from_diffusion_curves_second(cs), component_index=1, m=(0 if ncurves == 1 else None))
+    single = 'None' if ncurves != 1 else '(Some %s)' % fl(cs.diffusion_curves[0].feed_temperature)
+    ipt = 'None' if ip is None else '(Some (%s, %s))' % (perm(ip[0]), perm(ip[1]))
+    mt, ex = mixture(m), experiments(mem, m)
+    e = ('agree nicurve_near (cv <- non_ideal_curve FOps (real_PP FOps %s) %s (solve FOps %s (perm_of %s)) (fun c => activation_energy FOps %s c) %s %s %s %s %s %s %d %s %s %s %s %s ;; '
+         'Ok (cv_xs cv, cv_J cv, cv_P cv)) (%s)') % (mt, mt, mt, ex, ex, single, fn_text(raw1), fn_text(raw2), fl(T), comp(x0), fl(delta), n, opt(tp), opt(pp), ipt, fl(1e-11), act(ct), out)
+    return 'nicurve:%s:%dcurves' % (mode, ncurves), e, 'n=%d ip=%s %s' % (n, 'none' if ip is None else ipu, 'raised' if out == 'Raised' else 'returned')
+
+
+def case_fit(rng):
+    """PervaporationFunction.__call__ / __mul__ / from_array and Measurements extraction from a curve set"""
+    import random as _r
+    from pyvaporation.optimizer import PervaporationFunction
+    n, mm = rng.randint(0, 3), rng.randint(0, 2)
+    arr = [gens.loguniform(rng, 1e-4, 10)] + [rng.uniform(-2, 2) for _ in range(n)] + [rng.uniform(-3000, 3000)] + [rng.uniform(-300, 300) for _ in range(mm)]
+    if rng.random() < 0.15:
+        arr = arr[:-1]                       # wrong length: AssertionError on both sides
+    x, t, k = rng.uniform(0, 1), rng.uniform(280, 380), gens.loguniform(rng, 1e-3, 1e3)
+    try:
+        f = PervaporationFunction.from_array(numpy.array(arr), n, mm)
+        v = [f(x, t), (f * k)(x, t)]
+        if not finite(v):
+            return None
+        out = 'Returned (%s, %s)' % (fl(v[0]), fl(v[1]))
+    except (AssertionError,) + ACC:
+        out = 'Raised'
+    e1 = 'agree pair_near (f <- from_array FOps [%s] %d %d ;; Ok (pf_call FOps f %s %s, pf_call FOps (pf_mul FOps f %s) %s %s)) (%s)' % (
+        '; '.join(fl(a) for a in arr), n, mm, fl(x), fl(t), fl(k), fl(x), fl(t), out)
+    m = rng.choice(gens.builtin_mixtures())
+    cs = po.curve_set(m, _r.Random(rng.randint(1, 5)), rng.choice([1, 2, 3]), rng.choice(['weight', 'molar', 'mixed']))
+    second = rng.random() < 0.5
+    ms = (Measurements.from_diffusion_curves_second if second else Measurements.from_diffusion_curves_first)(cs)
+    mtxt = '[%s]' % '; '.join('(%s, (%s, %s))' % (fl(d.x), fl(d.t), fl(d.p)) for d in ms.data)
+    ctxt = '[%s]' % '; '.join('(Build_CurvePts FOps %s [%s])' % (fl(c.feed_temperature), '; '.join(
+        '(%s, (%s, %s))' % (comp(xc), perm(q[0]), perm(q[1])) for xc, q in zip(c.feed_compositions, c.permeances))) for c in cs.diffusion_curves)
+    e2 = 'agree meas_near (ms <- measurements FOps %s %s %s ;; Ok (map (fun d => (ms_x d, (ms_t d, ms_p d))) ms)) (Returned %s)' % (
+        mixture(m), 'true' if second else 'false', ctxt, mtxt)
+    return 'fit:n%d:m%d' % (n, mm), '(%s) && (%s)' % (e1, e2), 'points=%d' % len(ms.data)
+
+
 def run(seed, budget, nmax=30, timeout=900, jobs=8, tag='corr'):
     """budget: dict kind -> number of cases"""
     rng = random.Random(seed)
     items = []
     gensf = {'component': case_component, 'convert': case_convert, 'thermo': case_thermo, 'membrane': case_membrane, 'solver': case_solver, 'curve': case_curve,
-             'process': lambda r: case_process(r, nmax)}
+             'process': lambda r: case_process(r, nmax), 'curvemetrics': case_curve_metrics, 'nicurve': case_nicurve, 'fit': case_fit}
     skipped = 0
     for kind, count in budget.items():
         got, tries = 0, 0
@@ -313,7 +422,7 @@ def run(seed, budget, nmax=30, timeout=900, jobs=8, tag='corr'):
         with open(os.path.join(COQ, 'cases', name + '.v'), 'w') as f:
             f.write('(* GENERATED by harness/corr_numeric.py *)\nFrom Coq Require Import ZArith List Bool PrimFloat.\n'
                     'From PV Require Import Num FNum PyBase Model.Component Model.Mixture Model.Permeance Model.Solver Model.Membrane '
-                    'Model.Process Model.Curve Model.Persist Model.PersistCheck Model.NumCheck.\nImport ListNotations.\nOpen Scope bool_scope.\n')
+                    'Model.Process Model.Curve Model.NonIdealCurve Model.Fit Model.Persist Model.PersistCheck Model.NumCheck.\nImport ListNotations.\nOpen Scope bool_scope.\n')
             f.write('Definition results : list bool := [\n%s\n].\nEval vm_compute in results.\n' % ';\n'.join('(%s)' % e for _, e, _ in chunk))
         files.append((name, chunk))
     t0 = time.time()
@@ -343,6 +452,8 @@ def run(seed, budget, nmax=30, timeout=900, jobs=8, tag='corr'):
 
 
 if __name__ == '__main__':
-    b = {'component': 20, 'convert': 30, 'thermo': 40, 'membrane': 30, 'solver': 30, 'curve': 20, 'process': 30}
+    b = {'component': 20, 'convert': 30, 'thermo': 40, 'membrane': 30, 'solver': 30, 'curve': 20, 'process': 30, 'curvemetrics': 20, 'nicurve': 20, 'fit': 20}
+    if len(sys.argv) > 1:
+        b = {k: int(v) for k, v in (a.split('=') for a in sys.argv[1:])}
     r = run(int(os.environ.get('VERIF_SEED', '1')), b)
     print({k: v for k, v in r.items() if k != 'samples'})
